@@ -616,6 +616,8 @@ pub fn models(tier: Tier) -> Vec<C17> {
         }
         v.push(C17::new(name, *tx, &[0, 7], &[1, 2, 3], true, if q { 2 } else { 3 }, false, 0));
     }
+    // an arena beyond 64 KiB with a retained packet starting above offset 65535: offsets must not be narrowed
+    v.push(C17::new("C17-arena-70000-retained-beyond-offset-65535", 70000, &[7, 66000], &[1, 2], false, 2, false, 0));
     if !q {
         v.push(C17::new("C17-arena-40", 40, &[0, 1, 7, 20], &[1, 2, 3], true, 3, true, 0));
         v.push(C17::new("C17-arena-200-mixed", 200, &[0, 1, 7, 100], &[1, 2, 3, 4], true, 4, true, 0));
